@@ -4410,6 +4410,20 @@ fn can_export_symbol<'data, P: Platform>(
         return false;
     }
 
+    // Symbols defined by members of archives named by `--exclude-libs` are never exported, no matter
+    // which option (`--export-dynamic`, an export list, a reference from a shared object) asks for it.
+    if let crate::grouping::SequencedInput::Object(obj) = resources
+        .symbol_db
+        .file(resources.symbol_db.file_id_for_symbol(symbol_id))
+        && obj.parsed.input.has_archive_semantics()
+        && !resources
+            .symbol_db
+            .args
+            .should_export_dynamic(obj.parsed.input.lib_name())
+    {
+        return false;
+    }
+
     if !export_all_dynamic
         && let Some(export_list) = &resources.symbol_db.export_list
         && let Ok(symbol_name) = resources.symbol_db.symbol_name(symbol_id)
